@@ -21,3 +21,10 @@ func Yield(string) {}
 // SortHashes is called on hash lists whose order comes from map iteration
 // and leaks into I/O order.
 func SortHashes([]plumbing.Hash) {}
+
+// OnceEnter / OnceExit bracket a sync.Once (or similar) whose function does
+// I/O: a second caller blocks inside the Once until the first is done.
+func OnceEnter(any) {}
+
+// OnceExit ends the bracket opened by OnceEnter.
+func OnceExit(any) {}
